@@ -39,6 +39,9 @@ func kfMath(args []expressions.KeyBuilderStage) (expressions.KeyBuilderStage, er
 		if !ok {
 			return stageArgError(ErrConst, i)
 		}
+		if i > 0 { // arguments were separated by whitespace: keep them apart
+			sb.WriteByte(' ')
+		}
 		sb.WriteString(s)
 	}
 
